@@ -1502,7 +1502,7 @@ def run_unsafe(case, mon, viol, info, texts):
 
 def gen_cases(tier, seed):
     rng = random.Random(f'c18-{seed}')
-    mult = 3 if tier == 'quick' else 40
+    mult = 3 if tier == 'quick' else 100
     cases = []
     for kind, count in (('core', 90), ('tokens', 45), ('final', 25)):
         for _ in range(count * mult):
